@@ -69,7 +69,7 @@ REQUIRED_FEATURES = [
 
 # ------------------------------------------------------------------------------------ alphabet
 _RENDER_Q = {
-    "tbl": ["g", "cA", "cB", "nc", "pc", "po", "f1", "f2"],
+    "tbl": ["g", "cA", "cB", "cC", "nc", "pc", "po", "f1", "f2"],
     "tbl2": ["g"],
     "tblu": ["g", "nc"],
     "recu": ["cA"],
@@ -82,7 +82,7 @@ _RENDER_Q = {
 }
 _LINES_Q = [("tbl", "cA"), ("pp", "g")]
 _OPEN_Q = [("tbl", "cA"), ("tbl", "cB"), ("tbl", "g")]
-_CONTROL = [["drop", "A"], ["drop", "B"], ["glob", "A"], ["glob", "B"], ["glob", "N"], ["glob", "-"],
+_CONTROL = [["drop", "A"], ["drop", "B"], ["glob", "A"], ["glob", "B"], ["glob", "N"], ["glob", "C"], ["glob", "-"],
             ["fmt", "tbl", "*"], ["fmt", "tbl", "1:1"], ["f"], ["hnew"], ["hp"]]
 # extra operations of the thorough tier: base + these = 'ext', explored to length 3 (the quick tier explores
 # 'base' to length 3; the thorough tier additionally explores the sub-alphabet _CORE at length 4)
@@ -91,7 +91,7 @@ _EXTRA_T = ([["r", "tbl", h] for h in ("cN", "pcA", "pcB", "ponc")] +
             [["r", "gh", h] for h in ("pc", "po")] + [["r", "tbl2", "nc"], ["r", "tbl2", "cB"]] +
             [["r", "rec1", "pc"], ["r", "tbl_s", "cA"], ["r", "tbl_s", "cB"]] +
             [["l", "gh", "cA"], ["l", "tbl", "pc"], ["o0", "tbl", "cA"], ["o0", "pp", "cB"], ["o", "pp", "cA"],
-             ["drop", "N"], ["r", "tblu", "cB"], ["r", "recu", "g"], ["r", "tbl", "f1A"], ["r", "tbl", "f2A"],
+             ["drop", "N"], ["drop", "C"], ["r", "tblu", "cC"], ["r", "tblu", "cB"], ["r", "recu", "g"], ["r", "tbl", "f1A"], ["r", "tbl", "f2A"],
              ["r", "pp", "f2A"], ["l", "tblu", "cA"], ["r", "tbl2", "cA"], ["r", "rec2", "cA"], ["r", "recr", "cB"], ["o", "gh", "cB"]])
 
 
